@@ -638,3 +638,317 @@ func PO(rc *RC, floor int) {
 		}
 	}
 }
+
+// SC: second headers move no data. ShallowClone gives a second tensor header over the SAME
+// storage (its own access pattern, the operand's array): the library uses it to reshape or
+// lazily transpose an operand without touching the operand's metadata. Whatever moves or
+// overwrites elements through such a header does it to the operand: in every function, a
+// value obtained from ShallowClone() is never the receiver of Transpose() (materialising a
+// lazy transpose permutes the shared array), Memset, Zero, SetAt, Set or an unsafe
+// element-wise operation, and is not handed to copyDense/copyDenseIter as the destination.
+func SC(rc *RC) {
+	rc.S.Declare("SC", "second headers move no data: a value obtained from ShallowClone() (same storage as the operand) is never the receiver of Transpose/Memset/Zero/SetAt/Set nor the destination of a whole-buffer copy in that function", 3)
+	movers := map[string]bool{"Transpose": true, "Memset": true, "Zero": true, "SetAt": true, "Set": true, "SetMaskAt": true, "ResetMask": true}
+	for _, fi := range rc.P.SortedFuncs() {
+		if fi.Pkg != rc.P.Root || fi.Decl == nil || fi.Decl.Body == nil || strings.HasSuffix(fi.File, "_test.go") {
+			continue
+		}
+		info := fi.Pkg.TypesInfo
+		clones := map[types.Object]token.Pos{}
+		ast.Inspect(fi.Decl.Body, func(n ast.Node) bool {
+			as, ok := n.(*ast.AssignStmt)
+			if !ok || len(as.Lhs) != len(as.Rhs) {
+				return true
+			}
+			for i, r := range as.Rhs {
+				call, isCall := r.(*ast.CallExpr)
+				if !isCall {
+					continue
+				}
+				sel, isSel := call.Fun.(*ast.SelectorExpr)
+				if !isSel || sel.Sel.Name != "ShallowClone" {
+					continue
+				}
+				if id, isId := as.Lhs[i].(*ast.Ident); isId {
+					if o := info.ObjectOf(id); o != nil {
+						clones[o] = as.Pos()
+					}
+				}
+			}
+			return true
+		})
+		if len(clones) == 0 {
+			continue
+		}
+		// aliases: x = clone / T = sc (interface conversion)
+		for changed := true; changed; {
+			changed = false
+			ast.Inspect(fi.Decl.Body, func(n ast.Node) bool {
+				as, ok := n.(*ast.AssignStmt)
+				if !ok || len(as.Lhs) != len(as.Rhs) {
+					return true
+				}
+				for i, r := range as.Rhs {
+					rid, isId := r.(*ast.Ident)
+					if !isId {
+						continue
+					}
+					if _, isClone := clones[info.ObjectOf(rid)]; !isClone {
+						continue
+					}
+					if lid, isL := as.Lhs[i].(*ast.Ident); isL {
+						if o := info.ObjectOf(lid); o != nil {
+							if _, seen := clones[o]; !seen {
+								clones[o] = as.Pos()
+								changed = true
+							}
+						}
+					}
+				}
+				return true
+			})
+		}
+		var objs []types.Object
+		for o := range clones {
+			objs = append(objs, o)
+		}
+		sort.Slice(objs, func(i, j int) bool { return clones[objs[i]] < clones[objs[j]] })
+		for _, o := range objs {
+			bad := ""
+			ast.Inspect(fi.Decl.Body, func(n ast.Node) bool {
+				call, ok := n.(*ast.CallExpr)
+				if !ok || bad != "" {
+					return true
+				}
+				if sel, isSel := call.Fun.(*ast.SelectorExpr); isSel {
+					if id, isId := sel.X.(*ast.Ident); isId && info.ObjectOf(id) == o && movers[sel.Sel.Name] {
+						bad = fmt.Sprintf("%s.%s() at %s moves or overwrites elements of the storage %s shares with the operand it was cloned from", o.Name(), sel.Sel.Name, rc.P.Pos(call.Pos()), o.Name())
+					}
+				}
+				if f, isF := call.Fun.(*ast.Ident); isF && (f.Name == "copyDense" || f.Name == "copyDenseIter" || f.Name == "copyDenseSliced") && len(call.Args) > 0 {
+					if id, isId := call.Args[0].(*ast.Ident); isId && info.ObjectOf(id) == o {
+						bad = fmt.Sprintf("%s is the destination of %s at %s: the copy lands in the operand's storage", o.Name(), f.Name, rc.P.Pos(call.Pos()))
+					}
+				}
+				return true
+			})
+			key := fi.Key + "#" + o.Name()
+			if bad != "" {
+				rc.S.Viol("SC", key, rc.P.Pos(clones[o]), bad)
+			} else {
+				rc.S.Ok("SC", key, rc.P.Pos(clones[o]), "the second header is only reshaped / lazily transposed / read")
+			}
+		}
+	}
+}
+
+// CF: clone field correspondence. The copying constructors (Dense.Clone, Dense.ShallowClone)
+// build the result field by field: whatever is taken from the source goes into the SAME field
+// of the result - the access pattern into AP, the saved pre-transpose pattern into old, the
+// saved permutation into transposeWith. Cloning the current pattern into the result's `old`
+// (seed R9C13a) gives a clone whose untranspose restores the transposed shape.
+func CF(rc *RC) {
+	rc.S.Declare("CF", "clone field correspondence: in Dense.Clone and Dense.ShallowClone every CloneTo / Clone() / copy / assignment that carries metadata from the source tensor into the result connects the same field on both sides (AP to AP, old to old, transposeWith to transposeWith)", 2)
+	fields := map[string]bool{"AP": true, "old": true, "transposeWith": true, "mask": true}
+	fieldOf := func(e ast.Expr) (obj string, field string, ok bool) {
+		// x.F, &x.F, x.F.Clone(), x.F[..]
+		for {
+			switch y := e.(type) {
+			case *ast.UnaryExpr:
+				e = y.X
+				continue
+			case *ast.ParenExpr:
+				e = y.X
+				continue
+			case *ast.SliceExpr:
+				e = y.X
+				continue
+			case *ast.CallExpr:
+				if s, isSel := y.Fun.(*ast.SelectorExpr); isSel && (s.Sel.Name == "Clone") && len(y.Args) == 0 {
+					e = s.X
+					continue
+				}
+			}
+			break
+		}
+		sel, isSel := e.(*ast.SelectorExpr)
+		if !isSel || !fields[sel.Sel.Name] {
+			return "", "", false
+		}
+		if id, isId := sel.X.(*ast.Ident); isId {
+			return id.Name, sel.Sel.Name, true
+		}
+		return "", "", false
+	}
+	for _, key := range []string{"tensor.(*Dense).Clone", "tensor.(*Dense).ShallowClone"} {
+		fi := anchor(rc, "CF", key)
+		if fi == nil {
+			continue
+		}
+		pos := rc.P.Pos(fi.Decl.Pos())
+		recv := ""
+		if fi.Decl.Recv != nil && len(fi.Decl.Recv.List[0].Names) > 0 {
+			recv = fi.Decl.Recv.List[0].Names[0].Name
+		}
+		n := 0
+		var bad []string
+		check := func(dst, src ast.Expr, at token.Pos) {
+			do, df, ok1 := fieldOf(dst)
+			so, sf, ok2 := fieldOf(src)
+			if !ok1 || !ok2 || so != recv || do == recv {
+				return
+			}
+			n++
+			if df != sf {
+				bad = append(bad, fmt.Sprintf("the result's %s is filled from the source's %s at %s", df, sf, rc.P.Pos(at)))
+			}
+		}
+		ast.Inspect(fi.Decl.Body, func(m ast.Node) bool {
+			switch x := m.(type) {
+			case *ast.AssignStmt:
+				if len(x.Lhs) == len(x.Rhs) {
+					for i := range x.Lhs {
+						check(x.Lhs[i], x.Rhs[i], x.Pos())
+					}
+				}
+			case *ast.CallExpr:
+				if s, isSel := x.Fun.(*ast.SelectorExpr); isSel && s.Sel.Name == "CloneTo" && len(x.Args) == 1 {
+					check(x.Args[0], s.X, x.Pos())
+				}
+				if f, isF := x.Fun.(*ast.Ident); isF && f.Name == "copy" && len(x.Args) == 2 {
+					check(x.Args[0], x.Args[1], x.Pos())
+				}
+			}
+			return true
+		})
+		switch {
+		case len(bad) > 0:
+			rc.S.Viol("CF", key, pos, strings.Join(uniq(bad), "; ")).Sig = strings.Join(uniq(bad), "; ")
+		case n == 0:
+			rc.S.Undec("CF", key, pos, "no field-to-field transfer from the receiver recognised")
+		default:
+			rc.S.Ok("CF", key, pos, fmt.Sprintf("%d metadata transfers, each between the same field of source and result", n))
+		}
+	}
+}
+
+// RG: a registration goes into the table it was looked up in. Register, RegisterNumber,
+// RegisterEq, ... add a user-defined Dtype to a type-class table unless it is already there:
+// the table searched for the Dtype (a range over T.set, or typeclassCheck(a, T)) is the table
+// appended to. Searching one table and appending to another (seed R9C14b: `Register` tested
+// eqTypes, which RegisterEq had just filled, and never reached allTypes, the table the protobuf
+// and flatbuffers decoders resolve element types from) silently drops the registration.
+func RG(rc *RC) {
+	rc.S.Declare("RG", "registration table agreement: in every Register* function the type-class table that is searched for the Dtype is the table the Dtype is appended to", 4)
+	for _, fi := range rc.P.SortedFuncs() {
+		if fi.Pkg != rc.P.Root || fi.Decl == nil || fi.Decl.Body == nil || fi.Decl.Recv != nil || !strings.HasPrefix(fi.Obj.Name(), "Register") || strings.HasSuffix(fi.File, "_test.go") {
+			continue
+		}
+		var searched, appended []string
+		ast.Inspect(fi.Decl.Body, func(m ast.Node) bool {
+			switch x := m.(type) {
+			case *ast.RangeStmt:
+				if s, ok := x.X.(*ast.SelectorExpr); ok && s.Sel.Name == "set" {
+					if id, isId := s.X.(*ast.Ident); isId {
+						searched = append(searched, id.Name)
+					}
+				}
+			case *ast.CallExpr:
+				if f, ok := x.Fun.(*ast.Ident); ok && f.Name == "typeclassCheck" && len(x.Args) == 2 {
+					if id, isId := x.Args[1].(*ast.Ident); isId {
+						searched = append(searched, id.Name)
+					}
+				}
+				if s, ok := x.Fun.(*ast.SelectorExpr); ok && s.Sel.Name == "indexOf" {
+					if id, isId := s.X.(*ast.Ident); isId {
+						searched = append(searched, id.Name)
+					}
+				}
+				if f, ok := x.Fun.(*ast.Ident); ok && f.Name == "append" && len(x.Args) >= 2 {
+					if s, isSel := x.Args[0].(*ast.SelectorExpr); isSel && s.Sel.Name == "set" {
+						if id, isId := s.X.(*ast.Ident); isId {
+							appended = append(appended, id.Name)
+						}
+					}
+				}
+			}
+			return true
+		})
+		if len(appended) == 0 {
+			continue
+		}
+		pos := rc.P.Pos(fi.Decl.Pos())
+		sort.Strings(searched)
+		sort.Strings(appended)
+		s1, s2 := strings.Join(uniq(searched), ","), strings.Join(uniq(appended), ",")
+		if len(searched) == 0 {
+			rc.S.Undec("RG", fi.Key, pos, "appends to "+s2+" without a recognisable membership test")
+			continue
+		}
+		if s1 != s2 {
+			rc.S.Viol("RG", fi.Key, pos, fmt.Sprintf("searches %s for the Dtype but appends to %s: a Dtype found in the one is never added to the other", s1, s2))
+		} else {
+			rc.S.Ok("RG", fi.Key, pos, "searches and extends "+s2)
+		}
+	}
+}
+
+// KB: element storage is not compared byte for byte. Equality of tensors is equality of their
+// elements under Go's == for the element type: -0 equals 0 and NaN differs from NaN although
+// the bytes say otherwise. A bytes.Equal / bytes.Compare over the raw storage of a tensor
+// (Header.Raw, byteSlice()) makes the answer depend on the element type - and on the layout,
+// since views still go element by element (seed R9C17b). Expected count of such calls: zero;
+// the matcher is run on a built-in positive example on every run.
+func KB(rc *RC) {
+	rc.S.Declare("KB", "no byte-wise comparison of element storage: bytes.Equal / bytes.Compare / reflect.DeepEqual are never applied to a tensor's raw storage (floats compare by value: -0 == 0, NaN != NaN)", 0)
+	match := func(info *types.Info, body ast.Node) []*ast.CallExpr {
+		var out []*ast.CallExpr
+		ast.Inspect(body, func(m ast.Node) bool {
+			call, ok := m.(*ast.CallExpr)
+			if !ok {
+				return true
+			}
+			sel, isSel := call.Fun.(*ast.SelectorExpr)
+			if !isSel {
+				return true
+			}
+			pkg, isId := sel.X.(*ast.Ident)
+			if !isId {
+				return true
+			}
+			name := pkg.Name + "." + sel.Sel.Name
+			if name != "bytes.Equal" && name != "bytes.Compare" && name != "reflect.DeepEqual" {
+				return true
+			}
+			raw := false
+			for _, a := range call.Args {
+				txt := types.ExprString(a)
+				if strings.Contains(txt, ".Raw") || strings.Contains(txt, "byteSlice()") || strings.Contains(txt, ".hdr()") {
+					raw = true
+				}
+			}
+			if raw {
+				out = append(out, call)
+			}
+			return true
+		})
+		return out
+	}
+	// self-test
+	fset := token.NewFileSet()
+	if f, err := parser.ParseFile(fset, "kb.go", "package p\nimport \"bytes\"\ntype H struct{ Raw []byte }\nfunc eq(a, b *H) bool { return bytes.Equal(a.Raw, b.Raw) }\n", 0); err != nil || len(match(nil, f)) != 1 {
+		rc.S.Undec("KB", "self-test", "-", "the matcher no longer recognises its built-in positive example")
+		return
+	}
+	n := 0
+	for _, fi := range rc.P.SortedFuncs() {
+		if fi.Decl == nil || fi.Decl.Body == nil || strings.HasSuffix(fi.File, "_test.go") {
+			continue
+		}
+		n++
+		for _, call := range match(fi.Pkg.TypesInfo, fi.Decl.Body) {
+			rc.S.Viol("KB", fi.Key+"#"+types.ExprString(call.Fun), rc.P.Pos(call.Pos()), fmt.Sprintf("%s compares element storage byte for byte: for floating-point and complex elements that is not ==", types.ExprString(call)))
+		}
+	}
+	rc.S.Ok("KB", "module", "-", fmt.Sprintf("%d functions scanned, no byte-wise comparison of element storage", n))
+}
